@@ -454,6 +454,133 @@ class PointerIter(Contract):
 
 
 # ----------------------------------------------------------------------------
+# the indexGVF command
+# ----------------------------------------------------------------------------
+IGV = 'moPepGen/cli/index_gvf.py'
+
+
+class _IdxOut13:
+    def __init__(self, owner, name):
+        self.owner, self.name = owner, name
+
+    def sym_method(self, I, nm, a, k):
+        st = self.owner._cur
+        if nm in ('write', 'seek'):
+            st.log.append((nm, self.name, a[0]))
+            return None
+        raise Unsupported(f'file.{nm}')
+
+    def sym_view(self, I):
+        st = self.owner._cur
+        st.log.append(('read-back', self.name, None))
+        return st.temp_lines
+
+
+@register
+class IndexGvfCLI(Contract):
+    """indexGVF writes <file>.idx - the name the opener of callVariant looks for - holding first the line '# CHECKSUM=' + SHA-512 of the GVF
+    bytes (the header validate_gvf_index reads), then one line per pointer that iterate_pointer yields for the file read from offset 0 with
+    the circRNA flag of its metadata: pointer.to_line() and a line break, in order, nothing else"""
+    path, qualname, props = IGV, 'index_gvf', ('C13',)
+    assumptions = ('assumed: check_sha512(handle) is the SHA-512 of the file; a temporary text file reads back, after seek(0), the lines written to it; '
+                   'iterate_pointer and GVFPointer.to_line are their own contracts (uninterpreted results here)',)
+
+    def setup(self, I):
+        e = I.e
+        st = types.SimpleNamespace(log=[])
+        st.n = e.int('n_pointers')
+        e.assume(st.n >= 0)
+        zz = lambda i: i if is_z3(i) else z3.IntVal(i)
+        st.ptrs = FnView(st.n, lambda i: SymObj('Ptr13i', i=zz(i)), tag='pointers')
+        st.temp_lines = FnView(st.n + 1, lambda j: SymObj('TempLine13i', j=zz(j)), tag='lines of the temporary file')
+        st.sha = Tok('sha512_of_the_gvf')
+        st.is_circ = e.bool('is_circ_rna')
+        st.input = SymObj('GvfPath13i', suffix='.gvf')
+        st.args = [SymObj('Namespace', input_path=st.input, quiet=True, command='indexGVF')]
+        self._cur = st
+        return st
+
+    @property
+    def models(self):
+        c = self
+
+        def inst(reg):
+            sstr.install(reg)
+            CM = 'moPepGen/cli/common.py'
+            reg.func_(CM, 'print_start_message', lambda I, a, k: None)
+            reg.func_(CM, 'validate_file_format', lambda I, a, k: None)
+            reg.method_('GvfPath13i', 'with_suffix', lambda I, o, a, k: SymObj('IdxPath13i', of=o, suffix=a[0]))
+
+            def open_(I, a, k):
+                st = c._cur
+                mode = a[1] if len(a) > 1 else k.get('mode', 'r')
+                st.log.append(('open', a[0], mode))
+                if isinstance(a[0], SymObj) and a[0].cls == 'IdxPath13i':
+                    return _IdxOut13(c, 'out')
+                return SymObj('GvfIn13i', mode=mode)
+            reg.ext_('open', open_)
+            reg.method_('GvfIn13i', 'seek', lambda I, o, a, k: c._cur.log.append(('in-seek', o, a[0])))
+            reg.ext_('tempfile.TemporaryFile', lambda I, a, k: _IdxOut13(c, 'temp'))
+            for pth in ('moPepGen/__init__.py', 'moPepGen/util/common.py'):
+                reg.func_(pth, 'check_sha512', lambda I, a, k: (c._cur.log.append(('sha', a[0], None)), c._cur.sha)[1])
+            reg.method_('GVFMetadata', 'parse', lambda I, o, a, k: SymObj('Meta13i'))
+            reg.method_('Meta13i', 'is_circ_rna', lambda I, o, a, k: c._cur.is_circ)
+
+            def it_ptr(I, a, k):
+                st = c._cur
+                h = k.get('handle', a[0] if a else None)
+                flag = k.get('is_circ_rna', a[1] if len(a) > 1 else None)
+                seeks = [x for x in st.log if x[0] == 'in-seek' and x[1] is h]
+                I.e.prove('C13/indexGVF/pointers-scanned-from-the-start-of-the-binary-GVF-handle-with-the-kind-of-its-metadata',
+                          isinstance(h, SymObj) and h.cls == 'GvfIn13i' and h.fields['mode'] == 'rb' and flag is st.is_circ and (not seeks or seeks[-1][2] == 0))
+                return st.ptrs
+            reg.func_(GVI, 'iterate_pointer', it_ptr)
+            reg.ext_('GVFIndex.iterate_pointer', it_ptr)
+            reg.method_('Ptr13i', 'to_line', lambda I, o, a, k: SymObj('PtrLine13i', i=o.fields['i']))
+        return (inst,)
+
+    def head(self, I, env, k):
+        self._cur.mark = len(self._cur.log)
+
+    def step0(self, I, env, k):
+        st = self._cur
+        w = [x for x in st.log[st.mark:] if x[0] == 'write']
+        v = w[0][2] if len(w) == 1 and w[0][1] == 'temp' else None
+        ok = isinstance(v, OpaqueStr) and len(v.parts) == 2 and v.parts[1] == '\n' and isinstance(v.parts[0], SymObj) and v.parts[0].cls == 'PtrLine13i'
+        return [('pointer-k-written-once-as-its-own-line', v.parts[0].fields['i'] == k if ok else False)]
+
+    def step1(self, I, env, k):
+        st = self._cur
+        w = [x for x in st.log[st.mark:] if x[0] == 'write']
+        ok = len(w) == 1 and w[0][1] == 'out' and isinstance(w[0][2], SymObj) and w[0][2].cls == 'TempLine13i'
+        return [('line-k-of-the-temporary-file-copied-once-unchanged-to-the-idx-file', w[0][2].fields['j'] == k if ok else False)]
+
+    @property
+    def loops(self):
+        mk = lambda step, n: LoopSpec(inv=lambda I, env, k: [], on_head=self.head, step=step, target_after='unknown',
+                                      on_break=lambda I, env, k: [('every-element-is-visited', False)],
+                                      on_exit=lambda I, env, m: [('all-elements-were-visited', m == n())])
+        return {0: mk(self.step0, lambda: self._cur.n), 1: mk(self.step1, lambda: self._cur.n + 1)}
+
+    def post_return(self, I, st, ret):
+        e = I.e
+        outs = [x for x in st.log if x[0] == 'open' and isinstance(x[1], SymObj) and x[1].cls == 'IdxPath13i']
+        e.prove('C13/indexGVF/index-written-to-the-file-name-plus-.idx', len(outs) == 1 and outs[0][1].fields['of'] is st.input and outs[0][2] in ('wt', 'w')
+                and isinstance(outs[0][1].fields['suffix'], str) and outs[0][1].fields['suffix'] == '.gvf.idx')
+        shas = [x for x in st.log if x[0] == 'sha']
+        e.prove('C13/indexGVF/checksum-of-the-gvf-bytes', len(shas) == 1 and isinstance(shas[0][1], SymObj) and shas[0][1].cls == 'GvfIn13i' and shas[0][1].fields['mode'] == 'rb')
+        tw = [x for x in st.log if x[0] == 'write' and x[1] == 'temp']
+        first = tw[0][2] if tw else None
+        # what validate_gvf_index reads: a comment line that, without its leading '#' and blanks, is CHECKSUM=<value>
+        toks = sstr.merge(sstr.flat(first)) if isinstance(first, (OpaqueStr, str)) else []
+        e.prove('C13/indexGVF/first-line-is-the-checksum-header-validate_gvf_index-reads',
+                len(toks) == 3 and isinstance(toks[0], str) and toks[0].startswith('#') and toks[0].lstrip('# ') == 'CHECKSUM=' and toks[1] is st.sha and toks[2] == '\n')
+        kinds = [(x[0], x[1]) for x in st.log]
+        e.prove('C13/indexGVF/temporary-file-rewound-then-copied', ('seek', 'temp') in kinds and ('read-back', 'temp') in kinds
+                and kinds.index(('seek', 'temp')) < kinds.index(('read-back', 'temp')) and [x[2] for x in st.log if x[0] == 'seek' and x[1] == 'temp'] == [0])
+
+
+# ----------------------------------------------------------------------------
 # byte-offset index of a GVF file
 # ----------------------------------------------------------------------------
 from .c11 import LinesModel, BytesLine, TextLine, Key
